@@ -1,7 +1,8 @@
 package codec
 
 // Mode msg: the gRPC message structs round-tripped through rpc.Codec and compared field by
-// field after canonicalisation (nil and empty slices are one value; integers inside
+// field after canonicalisation (nil and empty-but-non-nil slices / maps are DIFFERENT values,
+// the unchanged codec keeps them apart and receivers rely on it; integers inside
 // interface{} are compared by value, msgpack hands non-negative ones back as uint64 and
 // negative ones as int64; times by instant; floats bit for bit with one NaN).
 
@@ -12,6 +13,7 @@ import (
 	"math"
 	"reflect"
 	"sort"
+	"strings"
 	"time"
 
 	"github.com/getlantern/bytemap"
@@ -72,6 +74,11 @@ func canonV(v reflect.Value, inIface bool) interface{} {
 		}
 		return out
 	case reflect.Slice:
+		// nil and empty-but-non-nil are different values: receivers tell message kinds
+		// apart by `x != nil` (queryCluster: result.key, result.fields)
+		if v.IsNil() {
+			return "nil-slice"
+		}
 		if v.Type().Elem().Kind() == reflect.Uint8 {
 			if v.Len() > 512 {
 				return "x(" + hashBytes(v.Bytes()) + ")" // large payloads by length and hash
@@ -91,6 +98,9 @@ func canonV(v reflect.Value, inIface bool) interface{} {
 		}
 		return out
 	case reflect.Map:
+		if v.IsNil() {
+			return "nil-map"
+		}
 		type kv struct {
 			k string
 			v interface{}
@@ -248,7 +258,19 @@ func caseMsg(ctx *hk.RunCtx, idx uint64) error {
 	kind := hk.Pick(r, []string{"Insert", "Insert", "Query", "Query", "Point", "RemoteQueryResult:row", "RemoteQueryResult:row",
 		"RemoteQueryResult:series", "RemoteQueryResult:series", "RemoteQueryResult:fields", "RemoteQueryResult:end",
 		"InsertReport", "Follow", "QueryMetaData", "SourceInfo", "RegisterQueryHandler", "large"})
-	ctx.Res.Hit("msg:" + kind)
+	if idx >= fixedBase {
+		// boundary cases between "empty" and "absent" (boundary.go)
+		bc := boundaryCases()
+		if int(idx-fixedBase) >= len(bc) {
+			return fmt.Errorf("no boundary case %d", idx-fixedBase)
+		}
+		b := bc[idx-fixedBase]
+		kind = "boundary: " + b.label
+		orig, out = b.orig, b.fresh()
+		ctx.Res.Hit("msg:boundary-case")
+	} else {
+		ctx.Res.Hit("msg:" + kind)
+	}
 	switch kind {
 	case "Insert":
 		dims := genMap(r, r.Range(0, 6))
@@ -425,7 +447,7 @@ func caseMsg(ctx *hk.RunCtx, idx uint64) error {
 	if err != nil {
 		detail = "codec error: " + err.Error()
 	} else if cd := canon(out); !reflect.DeepEqual(normJSON(co), normJSON(cd)) {
-		detail = "decoded message differs from the original"
+		detail = "decoded message differs from the original: " + firstDiff("", normJSON(co), normJSON(cd))
 		ctx.Res.Disagree(hk.Disagreement{Kind: "property", Case: cs, Impl: cd, Model: co, Detail: kind + ": " + detail, PropertyFails: true, Index: idx})
 		return nil
 	} else if extra != nil {
@@ -445,4 +467,55 @@ func caseMsg(ctx *hk.RunCtx, idx uint64) error {
 		ctx.Res.Disagree(hk.Disagreement{Kind: "property", Case: cs, Detail: kind + ": " + detail, PropertyFails: true, Index: idx})
 	}
 	return nil
+}
+
+// firstDiff names the first place where two canonical forms differ.
+func firstDiff(path string, a, b interface{}) string {
+	show := func(v interface{}) string {
+		switch v {
+		case "nil-slice":
+			return "nil"
+		case "nil-map":
+			return "nil map"
+		}
+		s := fmt.Sprint(v)
+		if l, ok := v.([]interface{}); ok && len(l) == 0 {
+			s = "empty (non-nil)"
+		}
+		if s == "x" {
+			s = "empty (non-nil) bytes"
+		}
+		if len(s) > 80 {
+			s = s[:80] + "…"
+		}
+		return s
+	}
+	switch x := a.(type) {
+	case map[string]interface{}:
+		y, ok := b.(map[string]interface{})
+		if !ok {
+			break
+		}
+		keys := make([]string, 0, len(x))
+		for k := range x {
+			keys = append(keys, k)
+		}
+		sort.Strings(keys)
+		for _, k := range keys {
+			if !reflect.DeepEqual(x[k], y[k]) {
+				return firstDiff(path+"."+k, x[k], y[k])
+			}
+		}
+	case []interface{}:
+		y, ok := b.([]interface{})
+		if !ok || len(x) != len(y) {
+			break
+		}
+		for i := range x {
+			if !reflect.DeepEqual(x[i], y[i]) {
+				return firstDiff(fmt.Sprintf("%s[%d]", path, i), x[i], y[i])
+			}
+		}
+	}
+	return fmt.Sprintf("%s: sent %s, received %s", strings.TrimPrefix(path, "."), show(a), show(b))
 }
